@@ -1040,6 +1040,7 @@ fn extract<'tcx>(tcx: TyCtxt<'tcx>, crate_name: &str, is_bin: bool) -> J {
 
     // ---- bodies
     let mut bodies = J::obj();
+    let mut const_bodies = J::obj();
     let mut roots: Vec<Instance<'tcx>> = Vec::new();
     let mut nbodies = 0usize;
     for def in tcx.hir_body_owners() {
@@ -1049,8 +1050,22 @@ fn extract<'tcx>(tcx: TyCtxt<'tcx>, crate_name: &str, is_bin: bool) -> J {
             DefKind::Fn => "fn",
             DefKind::AssocFn => "assocfn",
             DefKind::Closure => "closure",
+            DefKind::Const { .. } | DefKind::AssocConst { .. } | DefKind::Static { .. } => "const",
             _ => continue,
         };
+        if kname == "const" {
+            // initializer bodies of consts/statics: only their aggregates matter (field-bound inference)
+            if tcx.generics_of(did).requires_monomorphization(tcx) {
+                continue;
+            }
+            let body = tcx.mir_for_ctfe(did);
+            let mut b = body_json(tcx, def, body);
+            b.set("kind", J::s("const"));
+            b.set("generic", J::Bool(false));
+            b.set("exp", J::Arr(vec![]));
+            const_bodies.set(&defp(tcx, did), b);
+            continue;
+        }
         let body = tcx.optimized_mir(did);
         let mut b = body_json(tcx, def, body);
         b.set("kind", J::s(kname));
@@ -1101,6 +1116,7 @@ fn extract<'tcx>(tcx: TyCtxt<'tcx>, crate_name: &str, is_bin: bool) -> J {
     }
     doc.set("nbodies", J::u(nbodies));
     doc.set("bodies", bodies);
+    doc.set("const_bodies", const_bodies);
 
     // ---- items: statics, consts, adts
     let mut statics = J::obj();
